@@ -22,14 +22,14 @@ var modp, _ = new(big.Int).SetString(
 		"83655D23DCA3AD961C62F356208552BB9ED529077096966D670C354E4ABC9804F1746C08CA237327FFFFFFFFFFFFFFFF", 16)
 
 const (
-	UDHSize        = 192
-	O3MaxPadding   = 8194
-	O3HalfPadding  = O3MaxPadding / 2
-	O3MagicLen     = 32
-	o3InitData     = "Initiator obfuscated data"
-	o3RespData     = "Responder obfuscated data"
-	o3InitMagic    = "Initiator magic"
-	o3RespMagic    = "Responder magic"
+	UDHSize       = 192
+	O3MaxPadding  = 8194
+	O3HalfPadding = O3MaxPadding / 2
+	O3MagicLen    = 32
+	o3InitData    = "Initiator obfuscated data"
+	o3RespData    = "Responder obfuscated data"
+	o3InitMagic   = "Initiator magic"
+	o3RespMagic   = "Responder magic"
 )
 
 // UDH is a UniformDH key: x is even; the wire form is g^x or p - g^x.
